@@ -235,8 +235,12 @@ def _cell_marker_format(text):
     return '<span style="color:red"><b>{0}</b></span>'.format(text)
 
 
-def cell_marker(text):
-    return nbformat.v4.new_markdown_cell(source=_cell_marker_format(text))
+def cell_marker(text, with_id=True):
+    cell = nbformat.v4.new_markdown_cell(source=_cell_marker_format(text))
+    if not with_id:
+        # Cell ids are not part of the notebook format before 4.5
+        cell.pop('id', None)
+    return cell
 
 
 def get_outputs_and_note(base, removes, patches):
@@ -380,12 +384,15 @@ def make_inline_cell_conflict(base_cells, local_diff, remote_diff):
     lcells = local_diff[0].valuelist + base_cells[start : start + lkeep]
     rcells = remote_diff[0].valuelist + base_cells[start : start + rkeep]
 
+    # Only give the marker cells ids if the surrounding cells have them
+    with_id = any('id' in c for c in chain(base_cells, lcells, rcells))
+
     cells = []
-    cells.append(cell_marker("%s %s" % (m0, local_title)))
+    cells.append(cell_marker("%s %s" % (m0, local_title), with_id))
     cells.extend(lcells)
-    cells.append(cell_marker("%s" % (m1,)))
+    cells.append(cell_marker("%s" % (m1,), with_id))
     cells.extend(rcells)
-    cells.append(cell_marker("%s %s" % (m2, remote_title)))
+    cells.append(cell_marker("%s %s" % (m2, remote_title), with_id))
 
     # Return marked up cells
     return cells
